@@ -1,11 +1,11 @@
-\* 2 ids: versions / non-relation members / <= 2 members, failing datasource
+\* 2 ids: versions / non-relation members / <= 2 members, every request list <= 3
 CONSTANTS
   N = 2
   MaxMem = 2
   MaxReq = 3
   Family = "mixed"
   FlagFamily = "plain"
-  WithBad = TRUE
+  WithBad = FALSE
   CanonicalReqs = FALSE
   VersionSets <- MCVersions
   ReqLists <- MCReqs
